@@ -345,6 +345,22 @@ class CFG:
                     todo.append((b, asg))
         return seen
 
+    def forward_must(self, entry_state, transfer):
+        """Forward must-dataflow over frozensets: IN[n] = intersection over incoming edges (p, label) of
+        transfer(p, IN[p], label); unvisited predecessors do not constrain.  Returns {node: frozenset} for
+        every node reachable from ENTRY."""
+        IN = {self.ENTRY: frozenset(entry_state)}
+        work = [self.ENTRY]
+        while work:
+            n = work.pop()
+            for (b, lab) in self.succ[n]:
+                out = frozenset(transfer(n, IN[n], lab))
+                new = out if b not in IN else (IN[b] & out)
+                if b not in IN or new != IN[b]:
+                    IN[b] = new
+                    work.append(b)
+        return IN
+
     def returns(self):
         return [n for n in self.kind if self.kind[n] == "return"]
 
